@@ -221,3 +221,13 @@ package index
 //@   ensures[the_series_dictionary_is_flushed_last] calls(index.series.Flush) != old(calls(index.series.Flush)) ==> (index.inverted.flushedAt > old(now()) && index.inverted.flushedAt < index.series.flushedAt && index.forward.flushedAt > old(now()) && index.forward.flushedAt < index.series.flushedAt)
 //@   ensures[one_flush_at_a_time] calls(index.series.Flush) == old(calls(index.series.Flush)) || calls(index.series.Flush) == old(calls(index.series.Flush)) + 1
 //@ end
+
+//@ # ---- switching the dictionaries for a flush (C09): names wait in the immutable dictionary until their flush succeeds; a
+//@ # second switch while a batch is still waiting must leave both dictionaries as they are (replacing the waiting batch
+//@ # would forget its names: the next get-or-create hands them a second id) -----------------------------------------
+//@ func indexKVStore.PrepareFlush
+//@   prop C09
+//@   modifies s.immutable, s.mutable
+//@   ensures[a_batch_that_waits_for_its_flush_is_never_replaced] old(s.immutable) != nil ==> (s.immutable == old(s.immutable) && s.mutable == old(s.mutable))
+//@   ensures[otherwise_the_mutable_dictionary_becomes_the_waiting_batch] old(s.immutable) == nil ==> (s.immutable == old(s.mutable) && s.mutable != old(s.mutable))
+//@ end
